@@ -31,10 +31,21 @@ def dataset(n, pattern, grid=GRID):
     return dec, rew, [list(grid[i % len(grid)]) for i in range(n)]
 
 
-def run_sim(cfgs, dec, rew, X, params):
-    """-> (sim, originals): originals are deep copies of the bandits taken before the Simulator saw them."""
+def run_sim(cfgs, dec, rew, X, params, used=False):
+    """-> (sim, originals): originals are deep copies of the bandits taken before the Simulator saw them.
+    used: every bandit has had an earlier life (fit on the first four rows, three predictions) before that."""
     from mabwiser.simulator import Simulator
     bandits = [("b%d" % i, ops.build(c)) for i, c in enumerate(cfgs)]
+    if used:
+        for (_n, m), c in zip(bandits, cfgs):
+            if ops.is_context_free(c):
+                m.fit(list(dec[:4]), list(rew[:4]))
+                for _ in range(3):
+                    m.predict()
+            else:
+                m.fit(list(dec[:4]), list(rew[:4]), [list(x) for x in X[:4]])
+                m.predict([list(x) for x in X[1:4]])
+            ops.COUNTERS["transitions"] += 2
     originals = [copy.deepcopy(m) for _n, m in bandits]
     cf = all(ops.is_context_free(c) for c in cfgs)
     try:
